@@ -462,10 +462,25 @@ def worker_single(rec, shard, nshards, scratch, max_rows, thorough, seed):
                 rows = [{"onset": str(1.0 + 1.5 * i), "duration": "0.5", "trial_type": tt[i], "code": code[i],
                          "response_time": "0.3"} for i in range(n)]
                 runs.append((tabs[0][0], rows))
+    # whole-number durations with fractional onsets (the merged duration is fractional)
+    for tt in (("a", "a", "b"), ("a", "a", "a"), ("b", "a", "a")):
+        rows = [{"onset": str(1.5 + 0.5 * i), "duration": str(1 + i), "trial_type": tt[i], "code": "1", "response_time": "0.3"}
+                for i in range(3)]
+        runs.append((tabs[0][0], rows))
     base = len(tabs)
     tabs = tabs + runs
     cases += [(i, base + j) for i in range(len(psets)) if psets[i]["operation"] == "merge_consecutive"
               for j in range(len(runs))]
+    # n/a in a column that a remap reads (as text or as integer source)
+    na_tabs = []
+    for code in (("1", "n/a"), ("n/a", "2"), ("n/a", "n/a"), ("2", "1", "n/a")):
+        rows = [{"onset": str(ONSETS[i]), "duration": "0.5", "trial_type": "ab"[i % 2], "code": c, "response_time": "0.3"}
+                for i, c in enumerate(code)]
+        na_tabs.append((tabs[0][0], rows))
+    base2 = len(tabs)
+    tabs = tabs + na_tabs
+    cases += [(i, base2 + j) for i in range(len(psets)) if psets[i]["operation"] == "remap_columns"
+              for j in range(len(na_tabs))]
     for ci in core.shard_order(len(cases), shard, nshards, seed):
         i, j = cases[ci]
         cols, rows = tabs[j]
